@@ -67,6 +67,7 @@ pub fn run_program(b: &Value, id: u64) -> RunOut {
         .map(|a| a.iter().map(|x| x.as_u64().unwrap() as usize - 1).collect())
         .unwrap_or_default();
     let seed = b.get("seed").and_then(|x| x.as_u64());
+    let fine = b.get("fine").and_then(|x| x.as_bool()).unwrap_or(false);
     let n = progs.len();
     reset_counters();
     init_id_hashes(40);
@@ -105,6 +106,13 @@ pub fn run_program(b: &Value, id: u64) -> RunOut {
         handles.push(std::thread::spawn(move || {
             let sh3 = sh2.clone();
             mini_moka::verif::set_point_handler(Some(Arc::new(move |tag| park(&sh3, t, tag))));
+            if fine {
+                // fine-grained mode: one more switch point before every map access of this thread
+                let sh5 = sh2.clone();
+                crate::types::HASH_HOOK.with(|h| {
+                    *h.borrow_mut() = Some(Arc::new(move || park(&sh5, t, "key.hash")));
+                });
+            }
             for (ip, o) in prog2.iter().enumerate() {
                 let op = o["op"].as_str().unwrap();
                 let k = o.get("k").and_then(|x| x.as_u64()).unwrap_or(0) as u32;
@@ -220,7 +228,7 @@ pub fn run_program(b: &Value, id: u64) -> RunOut {
         // leaving maintenance: the thread parked outside it again, or finished
         if let Some(t) = in_maint {
             match &st[t] {
-                St::Parked(tag) if is_maint(tag) || *tag == "sync.lock" => {}
+                St::Parked(tag) if is_maint(tag) || *tag == "sync.lock" || *tag == "key.hash" => {}
                 _ => in_maint = None,
             }
         }
